@@ -15,10 +15,11 @@ type vfBodySpec struct {
 	Encoding    string `json:"encoding"`  // negotiated per-message encoding ("" = none)
 	WholeBody   string `json:"wholeBody"` // Content-Encoding of the whole body ("" = none)
 	Body        []byte `json:"body"`
-	Cuts        []int  `json:"cuts"`  // offsets at which a Read/Write call ends
-	Cuts2       []int  `json:"cuts2"` // a second partition of the same bytes
-	End         string `json:"end"`   // eof | eof-with-data | error | close-early
-	Items       string `json:"items"` // readable description of the envelope items
+	Cuts        []int  `json:"cuts"`        // offsets at which a Read/Write call ends
+	Cuts2       []int  `json:"cuts2"`       // a second partition of the same bytes
+	End         string `json:"end"`         // eof | eof-with-data | error | close-early
+	ErrWithData bool   `json:"errWithData"` // end=error: the last bytes and the error arrive in the same Read call
+	Items       string `json:"items"`       // readable description of the envelope items
 }
 
 // vfEv is the comparable summary of one trace event.
